@@ -136,9 +136,12 @@ func (p *Processor[K, T]) process(isNext bool) {
 
 // Processing loop.
 func (p *Processor[K, T]) processLoop() {
+	released := false
 	defer func() {
 		// Release the channel when exiting
-		<-p.processorRunningCh
+		if !released {
+			<-p.processorRunningCh
+		}
 	}()
 
 	var (
@@ -153,6 +156,13 @@ func (p *Processor[K, T]) processLoop() {
 		// Continue processing items until the queue is empty
 		p.lock.Lock()
 		r, ok = p.queue.Peek()
+		if !ok {
+			// The queue is empty: release the running token while still holding the lock.
+			// Otherwise an Enqueue that runs between the unlock and the release would see a loop that
+			// appears to be running, not start a new one, and its item would be left with no loop serving it.
+			<-p.processorRunningCh
+			released = true
+		}
 		p.lock.Unlock()
 		verifPoint("queue.loop.peeked", "ok", ok)
 		if !ok {
